@@ -41,19 +41,19 @@ unsigned long vf_atomic_load_u64(unsigned long *p, int order, int site) {
 }
 #define SLOT_AT(p, k) (__CPROVER_same_object(p, g_slots) && __CPROVER_POINTER_OFFSET(p) % sizeof(Slot_t) == 0 && __CPROVER_POINTER_OFFSET(p) / sizeof(Slot_t) == (k))
 void LSCAN(Scan_t *c, Slot_t *iter, Slot_t *end)
-__CPROVER_requires(__CPROVER_is_fresh(c, sizeof(*c)) && __CPROVER_is_fresh(c->cap_min_verison, 8) && g_a <= g_b && g_b <= g_n)
-__CPROVER_requires(__CPROVER_pointer_equals(iter, g_slots + g_a) && __CPROVER_pointer_equals(end, g_slots + g_b) && g_next == g_a && *c->cap_min_verison == g_min_reads && g_order_ok && g_seq_ok)
-__CPROVER_assigns(*c->cap_min_verison, g_read_f, g_f_read, g_min_reads, g_reads, g_next, g_order_ok, g_seq_ok)
+__CPROVER_requires(__CPROVER_is_fresh(c, sizeof(*c)) && __CPROVER_is_fresh(c->VF_CAP_lambda_epoch_low_water_mark_1_1, 8) && g_a <= g_b && g_b <= g_n)
+__CPROVER_requires(__CPROVER_pointer_equals(iter, g_slots + g_a) && __CPROVER_pointer_equals(end, g_slots + g_b) && g_next == g_a && *c->VF_CAP_lambda_epoch_low_water_mark_1_1 == g_min_reads && g_order_ok && g_seq_ok)
+__CPROVER_assigns(*c->VF_CAP_lambda_epoch_low_water_mark_1_1, g_read_f, g_f_read, g_min_reads, g_reads, g_next, g_order_ok, g_seq_ok)
 __CPROVER_ensures(g_order_ok && g_seq_ok && g_next == g_b && g_reads == __CPROVER_old(g_reads) + (g_b - g_a))
-__CPROVER_ensures(*c->cap_min_verison == g_min_reads && g_min_reads <= __CPROVER_old(g_min_reads))
+__CPROVER_ensures(*c->VF_CAP_lambda_epoch_low_water_mark_1_1 == g_min_reads && g_min_reads <= __CPROVER_old(g_min_reads))
 __CPROVER_ensures((g_f >= g_a && g_f < g_b) ==> (g_f_read && g_min_reads <= g_read_f))
 __CPROVER_ensures((g_f < g_a || g_f >= g_b) ==> (g_f_read == __CPROVER_old(g_f_read) && g_read_f == __CPROVER_old(g_read_f)))      /* slots outside the range are not read */
 ;
 //@loop Epoch_low_water_mark_lambda_epoch_low_water_mark_1_op_call 1
 //@  VF_REBASE(@p1:iter@, g_slots)
-//@  __CPROVER_assigns(@p1:iter@, *self->cap_min_verison, g_read_f, g_f_read, g_min_reads, g_reads, g_next, g_order_ok, g_seq_ok)
+//@  __CPROVER_assigns(@p1:iter@, *self->VF_CAP_lambda_epoch_low_water_mark_1_1, g_read_f, g_f_read, g_min_reads, g_reads, g_next, g_order_ok, g_seq_ok)
 //@  __CPROVER_loop_invariant(g_a <= g_next && g_next <= g_b && SLOT_AT(@p1:iter@, g_next) && g_order_ok && g_seq_ok && g_reads == __CPROVER_loop_entry(g_reads) + (g_next - g_a))
-//@  __CPROVER_loop_invariant(*self->cap_min_verison == g_min_reads && g_min_reads <= __CPROVER_loop_entry(g_min_reads) && ((g_f >= g_a && g_f < g_next) ==> (g_f_read && g_min_reads <= g_read_f)) && ((g_f < g_a || g_f >= g_next) ==> (g_f_read == __CPROVER_loop_entry(g_f_read) && g_read_f == __CPROVER_loop_entry(g_read_f))))
+//@  __CPROVER_loop_invariant(*self->VF_CAP_lambda_epoch_low_water_mark_1_1 == g_min_reads && g_min_reads <= __CPROVER_loop_entry(g_min_reads) && ((g_f >= g_a && g_f < g_next) ==> (g_f_read && g_min_reads <= g_read_f)) && ((g_f < g_a || g_f >= g_next) ==> (g_f_read == __CPROVER_loop_entry(g_f_read) && g_read_f == __CPROVER_loop_entry(g_read_f))))
 //@  __CPROVER_decreases(g_b - g_next)
 //@end
 
